@@ -1173,3 +1173,116 @@ def gen_script(r, meta=None, prof=None):
                    for _ in range(r.randint(1, 6))],
         'peek': [r.randint(0, 255) for _ in range(r.randint(1, 4))],
     }
+
+
+# ---------------------------------------------------------------------------
+# constant-heavy profile (C02): constant expressions over every operator and
+# operand-type pair with boundary values, placed where the compiler evaluates
+# them itself (CONST, static array bounds, folded PRINT items and conditions)
+
+BOUNDARY = {
+    '%': (0, 1, -1, 2, 3, 7, 255, 256, 32767, -32767, 32766, 100, -8),
+    '&': (0, 1, -1, 2, 65535, 65536, 32768, -32769, 2147483647, -2147483647, 40000, 100000),
+    '!': (0.0, 0.5, -0.5, 1.5, 2.5, 3.5, -1.5, -2.5, 1.0, 16777216.0, 0.25, 32767.5, 65536.0,
+          10000000000.0),
+    '#': (0.0, 0.5, -0.5, 1.5, 2.5, -2.5, 1.0, 4294967296.0, 0.125, 32767.5, -32768.5,
+          2147483647.5, 1000000000000.0),
+}
+C_OPS = ('+', '-', '*', '/', '\\', 'mod', 'and', 'or', 'xor', 'eqv', 'imp',
+         '=', '<>', '<', '>', '<=', '>=')
+
+
+def const_expr(r, depth, strings=False):
+    if strings and r.random() < 0.15:
+        a = ['lit', '$', r.choice(('', 'a', 'B', 'ab', 'b', 'A'))]
+        if depth > 0 and r.random() < 0.5:
+            b = ['lit', '$', r.choice(('', 'a', 'B', 'ab'))]
+            if r.random() < 0.5:
+                return ['bin', r.choice(CMP), a, b]
+            return ['fn', 'len', [['bin', '+', a, b]]]
+        return ['fn', 'len', [a]]
+    if depth <= 0 or r.random() < 0.25:
+        ty = r.choice('%&!#')
+        return ['lit', ty, r.choice(BOUNDARY[ty])]
+    x = r.random()
+    if x < 0.12:
+        return ['un', r.choice(('neg', 'not')), const_expr(r, depth - 1)]
+    if x < 0.18:
+        return ['par', const_expr(r, depth - 1)]
+    if x < 0.24:
+        return ['fn', r.choice(('abs', 'cint', 'clng', 'int')), [const_expr(r, depth - 1)]]
+    return ['bin', r.choice(C_OPS), const_expr(r, depth - 1), const_expr(r, depth - 1)]
+
+
+def const_program(r):
+    """A small program whose interesting values are computed by the compiler."""
+    main = []
+    n = [0]
+
+    def fresh(stem, ty=''):
+        n[0] += 1
+        return f'{stem}{n[0]}{ty}'
+    handler = r.random() < 0.35
+    if handler:
+        main.append({'k': 'onerr', 'mode': 'next'})
+    consts = []
+    for _ in range(r.randint(1, 4)):
+        form = r.choice(('print', 'print', 'const', 'let', 'if', 'dim', 'select', 'for'))
+        e = const_expr(r, r.choice((1, 1, 2, 2, 3)), strings=True)
+        if paren_depth(e) > 3:
+            e = const_expr(r, 1)
+        if form == 'print':
+            items = [[['lit', '$', f'<{len(main)}>'], ';'], [e, ';'],
+                     [const_expr(r, 1), '']]
+            main.append({'k': 'print', 'items': items})
+        elif form == 'const':
+            ty = r.choice('%&!#')
+            nm = fresh('k', ty)
+            main.append({'k': 'const', 'name': nm, 'e': e})
+            main.append({'k': 'print', 'items': [[['var', nm], ';'],
+                                                 [['bin', '+', ['var', nm], ['lit', '%', 1]], '']]})
+        elif form == 'let':
+            ty = r.choice('%&!#')
+            nm = fresh('v', ty)
+            main.append({'k': 'let', 'lv': ['var', nm], 'e': e})
+            main.append({'k': 'print', 'items': [[['var', nm], '']]})
+        elif form == 'if':
+            main.append({'k': 'ifl', 'cond': ['bin', r.choice(CMP), e, const_expr(r, 1)],
+                         'then': [{'k': 'print', 'items': [[['lit', '$', 'T'], '']]}],
+                         'els': [{'k': 'print', 'items': [[['lit', '$', 'F'], '']]}]})
+        elif form == 'dim':
+            ty = r.choice('%&!#$')
+            nm = fresh('a', ty)
+            lo = ['bin', r.choice(('+', '-', '*', '\\', 'mod', 'and', 'or')),
+                  ['lit', r.choice('%&!#'), r.choice((0, 1, 2, 3))],
+                  ['lit', r.choice('%&!#'), r.choice((1, 2, 1.5, 0.5, 2.5) if r.random() < 0.4 else (1, 2, 3))]]
+            hi = ['bin', '+', ['par', lo], ['lit', r.choice('%&!#'), r.choice((1, 2, 2.5, 3.5, 0.5))]]
+            if lo[3][1] in '%&':
+                lo[3][2] = int(lo[3][2])
+            if hi[3][1] in '%&':
+                hi[3][2] = int(hi[3][2])
+            main.append({'k': 'dim', 'shared': False, 'name': nm, 'bounds': [[lo, hi]],
+                         'ty': ty, 'as': False})
+            main.append({'k': 'print', 'items': [[['fn', 'lbound', [['var', nm]]], ';'],
+                                                 [['fn', 'ubound', [['var', nm]]], '']]})
+        elif form == 'select':
+            main.append({'k': 'select', 'e': e,
+                         'cases': [[[['eq', const_expr(r, 1)], ['range', const_expr(r, 0), const_expr(r, 0)]],
+                                    [{'k': 'print', 'items': [[['lit', '$', 'c1'], '']]}]],
+                                   [[['is', r.choice(CMP), const_expr(r, 1)]],
+                                    [{'k': 'print', 'items': [[['lit', '$', 'c2'], '']]}]]],
+                         'els': [{'k': 'print', 'items': [[['lit', '$', 'c3'], '']]}]})
+        else:
+            ty = r.choice('%&!#')
+            nm = fresh('i', ty)
+            main.append({'k': 'for', 'var': nm, 'a': const_expr(r, 1),
+                         'b': ['bin', '+', const_expr(r, 0), ['lit', '%', 2]],
+                         'step': r.choice((None, ['lit', '!', 0.5], ['lit', '%', 1])),
+                         'nextvar': False,
+                         'body': [{'k': 'print', 'items': [[['var', nm], ';']]},
+                                  {'k': 'ifl', 'cond': ['bin', '>', ['var', nm], ['lit', '%', 9]],
+                                   'then': [{'k': 'exit', 'what': 'for'}], 'els': None}]})
+    main.append({'k': 'print', 'items': [[['lit', '$', 'end'], '']]})
+    prog = {'types': [], 'main': main, 'procs': []}
+    number_stmts(prog)
+    return prog
